@@ -18,12 +18,14 @@ package variants
 //@     invariant forall(j, 0, len(refseq), implies(refseq[j] == 244, MSAToRef[j] == 0))
 //@     invariant forall(j, 0, i, implies(refseq[j] != 244, refToMSA[count(k, 0, j, refseq[k] != 244)] == count(k, 0, j, refseq[k] == 244)))
 //@     invariant disjoint(refToMSA, MSAToRef) && freshslice(refToMSA) && freshslice(MSAToRef)
+//@     invariant forall(k, 0, bases, 0 <= refToMSA[k] && k + refToMSA[k] < i)
 //@     do-end if refseq[i] != 244 { bases++ }
 //@   ensures len(result1) == count(k, 0, len(refseq), refseq[k] != 244)
 //@   ensures len(result2) == len(refseq)
 //@   ensures forall(j, 0, len(refseq), implies(refseq[j] != 244, result2[j] == count(k, 0, j, refseq[k] == 244)))
 //@   ensures forall(j, 0, len(refseq), implies(refseq[j] == 244, result2[j] == 0))
 //@   ensures forall(j, 0, len(refseq), implies(refseq[j] != 244, result1[count(k, 0, j, refseq[k] != 244)] == count(k, 0, j, refseq[k] == 244)))
+//@   ensures [range] forall(k, 0, len(result1), 0 <= result1[k] && k + result1[k] < len(refseq))
 
 //@ # C05: run-length scan. The ghost variables are the specification's own state machine over the columns seen so far:
 //@ # refleft = reference bases to the left; gIns/gDel = a run is open; g*Ref = reference bases left of the run's start;
@@ -213,7 +215,7 @@ package variants
 //@ # GetVariantsPair (C04/C05): merge, stable sort by (Position, Changetype), drop deletions at position 0 and adjacent
 //@ # duplicates. Nothing else is lost: every merged record that is not a del@0 equals some record of the output.
 //@ spec vLess(pa int, ca string, pb int, cb string) bool = pa < pb || (pa == pb && ca < cb)
-//@ func GetVariantsPair
+//@ func GetVariantsPair deterministic
 //@   requires len(ref) == len(query) && len(offsetMSACoord) == len(ref)
 //@   requires forall(j, 0, len(ref), implies(ref[j] != 244, offsetMSACoord[j] == count(k, 0, j, ref[k] == 244)))
 //@   requires forall(j, 0, len(ref), implies(ref[j] == 244, offsetMSACoord[j] == 0))
@@ -238,3 +240,21 @@ package variants
 //@   ensures [local.nothing_lost] forall(b, 0, len(variants), (variants[b].Changetype == "del" && variants[b].Position == 0) || (0 <= gW[b] && gW[b] < len(finalVariants) && finalVariants[gW[b]] == variants[b]))
 //@   ensures [sorted] forall(a, 0, len(result1.Vs), forall(b, a + 1, len(result1.Vs), !vLess(result1.Vs[b].Position, result1.Vs[b].Changetype, result1.Vs[a].Position, result1.Vs[a].Changetype)))
 //@   ensures [nodel0] forall(a, 0, len(result1.Vs), !(result1.Vs[a].Changetype == "del" && result1.Vs[a].Position == 0))
+
+//@ # C11 (FASTA side): every record is handed to GetVariantsPair together with the reference record and the offset tables
+//@ # the caller computed from that reference (Variants: refToMSA, MSAToRef = GetMSAOffsets(ref.Seq)); the result is
+//@ # forwarded unchanged. The offsets' specification is this function's precondition (GetMSAOffsets' postcondition).
+//@ func getVariants
+//@   modifies cVariants, cErr
+//@   requires forall(j, 0, len(ref.Seq), implies(ref.Seq[j] != 244, offsetMSACoord[j] == count(k, 0, j, ref.Seq[k] == 244)))
+//@   requires forall(j, 0, len(ref.Seq), implies(ref.Seq[j] == 244, offsetMSACoord[j] == 0))
+//@   requires len(offsetMSACoord) == len(ref.Seq)
+//@   requires forall(k, 0, len(offsetRefCoord), 0 <= offsetRefCoord[k] && k + offsetRefCoord[k] < len(ref.Seq))
+//@   requires forall(j, 0, len(intregions), 1 <= intregions[j] && intregions[j] <= len(offsetRefCoord))
+//@   requires forall(r, 0, len(cdsregions), len(cdsregions[r].Translation) * 3 >= len(cdsregions[r].Positions) && forall(j, 0, len(cdsregions[r].Positions), 1 <= cdsregions[r].Positions[j] && cdsregions[r].Positions[j] <= len(offsetRefCoord)))
+//@   loop 1:
+//@     invariant len(sent(cVariants)) == range_i && len(sent(cErr)) == 0
+//@     invariant forall(t, 0, range_i, sent(cVariants)[t].Queryname == recv(cMSA)[t].ID && sent(cVariants)[t].Idx == recv(cMSA)[t].Idx)
+//@   before call:GetVariantsPair#1: assert [c11.args] len(record.Seq) == len(ref.Seq) && record == recv(cMSA)[range_i]
+//@   before call:GetVariantsPair#1: assert [c11.wiring] sameslice(arg(0), ref.Seq) && sameslice(arg(1), record.Seq) && arg(2) == ref.ID && arg(3) == record.ID && arg(4) == record.Idx && sameslice(arg(5), cdsregions) && sameslice(arg(6), intregions) && sameslice(arg(7), offsetRefCoord) && sameslice(arg(8), offsetMSACoord)
+//@   before send#2: assert [c11.forward] err == nil && AS.Queryname == record.ID && AS.Idx == record.Idx
